@@ -260,13 +260,13 @@ Proof.
   - (* NegSubmit *) unfold step_neg_submit.
     destruct (phase s) as [| |st o| | |] eqn:Hp; try assumption.
     destruct st, o; try assumption; destruct (is_fresh c s); try assumption;
-      (apply (pre_inv_passed_gen s); [reflexivity| | |assumption]; st_simpl_goal; reflexivity).
+      (apply (pre_inv_passed_gen s); [rewrite Hp; reflexivity| | |assumption]; st_simpl_goal; reflexivity).
   - (* NegStep *) unfold step_neg_step, neg_fail, neg_fail_with.
     destruct (phase s) as [| |st o| | |] eqn:Hp; try assumption.
     destruct o as [c0|]; [|assumption].
     destruct (lookup c0 (callers s)) as [[r|r|r i|r res0]|]; try assumption.
     assert (Hgen : forall s', peer_sent s' = peer_sent s -> not_passed (phase s') = false -> pre_inv s').
-    { intros s' E1 E2. apply (pre_inv_passed_gen s); auto. }
+    { intros s' E1 E2. apply (pre_inv_passed_gen s); auto. rewrite Hp; reflexivity. }
     destruct st, res0; try assumption; try (apply Hgen; st_simpl_goal; reflexivity).
     + destruct (gsv_outcome f) as [[cur mx]|]; [destruct (cur =? _)|]; apply Hgen; st_simpl_goal; reflexivity.
     + destruct (spv_ok f); apply Hgen; st_simpl_goal; reflexivity.
@@ -281,10 +281,210 @@ Proof.
       (constructor; st_simpl_goal; cbn [not_passed]; try discriminate; eauto; intros [X|X]; discriminate).
   - (* ConnReturn *) unfold step_conn_return. destruct (phase s) as [| |st o| |r|r] eqn:Hp; try assumption.
     destruct (writer_over (writer s) && reader_over (reader s)); try assumption.
-    constructor; st_simpl_goal; rewrite Hp in *; cbn [not_passed] in *; auto.
+    constructor; st_simpl_goal; cbn [not_passed] in *; auto.
     intros [X|X]; discriminate.
   - (* ShutdownClose *) unfold step_shutdown_close.
     destruct (lookup c (callers s)) as [[r|r|r i|r res0]|]; try assumption.
     destruct res0; try assumption. destruct (_ && _); try assumption.
     apply (pre_inv_fields s); try assumption; unfold step_close; destruct (closed _); reflexivity.
+Qed.
+
+Theorem pre_inv_run_from : forall cfg evs s, pre_inv s -> pre_inv (run_from cfg s evs).
+Proof.
+  intros cfg evs. induction evs as [|e evs IH]; intros s H; cbn; [assumption|].
+  apply IH. now apply pre_inv_step.
+Qed.
+
+Theorem pre_inv_run : forall cfg evs, pre_inv (run cfg evs).
+Proof. intros. apply pre_inv_run_from. apply pre_inv_init. Qed.
+
+(* ------------------------------------------------------------------ phase and ready --- *)
+Definition is_conn_event (e : event) : bool :=
+  match e with
+  | ConnStart | ConnFirst _ _ | ConnFirstFail | NegSubmit _ | NegStep | ConnReady | ConnSelect _ | ConnReturn => true
+  | _ => false
+  end.
+
+Lemma receive_same_ctl : forall cfg whole f h s,
+  let s1 := note_close_resp f (set_peer_sent (peer_sent s ++ [f]) s) in
+  let '(s2, rep) := take_waiter cfg whole (length (peer_sent s)) f s1 in
+  same_ctl s1 s2 /\ same_ctl s1 (run_handler cfg (length (peer_sent s)) f h rep s2).
+Proof.
+  intros. destruct (take_waiter cfg whole (length (peer_sent s)) f s1) as [s2 rep] eqn:Htw.
+  pose proof (take_waiter_same_ctl cfg whole (length (peer_sent s)) f s1) as H1. rewrite Htw in H1. cbn [fst] in H1.
+  split; [assumption|]. eapply same_ctl_trans; [exact H1|apply run_handler_same_ctl].
+Qed.
+
+(* events of callers, of the two loops and Close do not move Connect and do not open the gate *)
+Lemma step_phase_ready : forall cfg s e, is_conn_event e = false ->
+  phase (step cfg s e) = phase s /\ ready (step cfg s e) = ready s.
+Proof. (* (closed is handled by [step_closed_mono] below) *)
+  intros cfg s e He. destruct e; try discriminate; cbn [step].
+  - unfold step_submit. destruct (_ && _); split; reflexivity.
+  - unfold step_pass_gate, set_caller. destruct (lookup c (callers s)) as [[r|r|r i|r res0]|]; try (split; reflexivity).
+    destruct (ready s) eqn:Er; [destruct (max_payload <? q_len r)|]; split; st_simpl_goal; auto.
+  - unfold step_see_closed. destruct (closed s); [|split; reflexivity].
+    destruct (leave_same_ctl RErrClosed c s) as (A & B & _). auto.
+  - destruct (leave_same_ctl RErrCtx c s) as (A & B & _). auto.
+  - unfold step_wdefault. destruct (writer s), (ackq s); try (split; reflexivity). destruct (closed s); split; reflexivity.
+  - unfold step_waccept, set_caller. destruct (writer s); try (split; reflexivity).
+    destruct (lookup c (callers s)) as [[r|r|r i|r res0]|]; try (split; reflexivity).
+    cbn zeta. destruct (q_wait r), (q_id r =? 0); split; reflexivity.
+  - unfold step_wtakeack. destruct (writer s), (ackq s); split; reflexivity.
+  - unfold step_wwritehdr. destruct (writer s); try (split; reflexivity). cbn zeta. destruct (f_len _ =? 0); split; reflexivity.
+  - unfold step_wwritepay. destruct (writer s); split; reflexivity.
+  - unfold step_writefail. destruct (writer s); try (split; reflexivity);
+      match goal with |- context [if ?b then _ else _] => destruct b end; split; reflexivity.
+  - unfold step_wseedone. destruct (writer s); try (split; reflexivity); destruct (closed s); split; reflexivity.
+  - unfold step_rcheck. destruct (reader s); try (split; reflexivity); destruct (closed s); split; reflexivity.
+  - unfold step_rseedone. destruct (reader s); try (split; reflexivity); destruct (closed s); split; reflexivity.
+  - unfold step_rframe. destruct (reader s); try (split; reflexivity).
+    pose proof (receive_same_ctl cfg true f h s) as H. cbv zeta in H.
+    destruct (take_waiter cfg true (length (peer_sent s)) f _) as [s2 rep].
+    destruct H as (_ & (A & B & _)).
+    pose proof (note_close_resp_same_ctl f (set_peer_sent (peer_sent s ++ [f]) s)) as (A0 & B0 & _).
+    st_simpl. split; congruence.
+  - unfold step_peer_eof. destruct (reader s); try (split; reflexivity). destruct p.
+    + destruct (saw_close s); split; reflexivity.
+    + split; reflexivity.
+    + pose proof (receive_same_ctl cfg false f HBAll s) as H. cbv zeta in H.
+      destruct (take_waiter cfg false (length (peer_sent s)) f _) as [s2 rep].
+      destruct H as ((A1 & B1 & _) & (A & B & _)).
+      pose proof (note_close_resp_same_ctl f (set_peer_sent (peer_sent s ++ [f]) s)) as (A0 & B0 & _).
+      st_simpl. destruct (rep && _); unfold reader_dies; st_simpl_goal; split; congruence.
+  - unfold step_close. destruct (closed s); split; reflexivity.
+  - unfold step_shutdown_close, step_close. destruct (lookup c (callers s)) as [[r|r|r i|r res0]|]; try (split; reflexivity).
+    destruct res0; try (split; reflexivity). destruct (_ && _); [destruct (closed _)|]; split; reflexivity.
+Qed.
+
+(* the phase never leaves [PReturned r] *)
+Lemma returned_stable : forall cfg s e r, phase s = PReturned r -> phase (step cfg s e) = PReturned r.
+Proof.
+  intros cfg s e r Hp. destruct (is_conn_event e) eqn:He.
+  - destruct e; try discriminate; cbn [step];
+      unfold step_conn_start, step_conn_first, step_conn_first_fail, step_neg_submit, step_neg_step, step_conn_ready,
+             step_conn_select, step_conn_return; rewrite Hp; assumption.
+  - destruct (step_phase_ready cfg s e He) as (A & _). congruence.
+Qed.
+
+Lemma returned_stable_run : forall cfg evs s r, phase s = PReturned r -> phase (run_from cfg s evs) = PReturned r.
+Proof.
+  intros cfg evs. induction evs as [|e evs IH]; intros s r H; cbn; [assumption|].
+  apply IH. now apply returned_stable.
+Qed.
+
+(* ------------------------------------------------------------------ closed --- *)
+(* done is closed once and for all, and Connect has returned (or is about to) only on a closed client *)
+Lemma step_closed_mono : forall cfg s e, closed s = true -> closed (step cfg s e) = true.
+Proof.
+  intros cfg s e Hc. destruct e; cbn [step].
+  - unfold step_submit. destruct (_ && _); assumption.
+  - unfold step_pass_gate, set_caller. destruct (lookup c (callers s)) as [[r|r|r i|r res0]|]; try assumption.
+    destruct (ready s); [destruct (max_payload <? q_len r)|]; assumption.
+  - unfold step_see_closed. rewrite Hc. destruct (leave_same_ctl RErrClosed c s) as (_ & _ & _ & _ & _ & _ & _ & _ & _ & E). congruence.
+  - destruct (leave_same_ctl RErrCtx c s) as (_ & _ & _ & _ & _ & _ & _ & _ & _ & E). unfold step_cancel. congruence.
+  - unfold step_wdefault. destruct (writer s), (ackq s); try assumption. rewrite Hc. assumption.
+  - unfold step_waccept, set_caller. destruct (writer s); try assumption.
+    destruct (lookup c (callers s)) as [[r|r|r i|r res0]|]; try assumption.
+    cbn zeta. destruct (q_wait r), (q_id r =? 0); assumption.
+  - unfold step_wtakeack. destruct (writer s), (ackq s); assumption.
+  - unfold step_wwritehdr. destruct (writer s); try assumption. cbn zeta. destruct (f_len _ =? 0); assumption.
+  - unfold step_wwritepay. destruct (writer s); assumption.
+  - unfold step_writefail. destruct (writer s); try assumption;
+      match goal with |- context [if ?b then _ else _] => destruct b end; assumption.
+  - unfold step_wseedone. destruct (writer s); try assumption; rewrite Hc; assumption.
+  - unfold step_rcheck. destruct (reader s); try assumption; rewrite Hc; assumption.
+  - unfold step_rseedone. destruct (reader s); try assumption; rewrite Hc; assumption.
+  - unfold step_rframe. destruct (reader s); try assumption.
+    pose proof (receive_same_ctl cfg true f h s) as H. cbv zeta in H.
+    destruct (take_waiter cfg true (length (peer_sent s)) f _) as [s2 rep].
+    destruct H as (_ & (_ & _ & _ & _ & _ & _ & _ & _ & _ & E)).
+    pose proof (note_close_resp_same_ctl f (set_peer_sent (peer_sent s ++ [f]) s)) as (_ & _ & _ & _ & _ & _ & _ & _ & _ & E0).
+    st_simpl. congruence.
+  - unfold step_peer_eof. destruct (reader s); try assumption. destruct p.
+    + destruct (saw_close s); assumption.
+    + assumption.
+    + pose proof (receive_same_ctl cfg false f HBAll s) as H. cbv zeta in H.
+      destruct (take_waiter cfg false (length (peer_sent s)) f _) as [s2 rep].
+      destruct H as ((_ & _ & _ & _ & _ & _ & _ & _ & _ & E1) & (_ & _ & _ & _ & _ & _ & _ & _ & _ & E)).
+      pose proof (note_close_resp_same_ctl f (set_peer_sent (peer_sent s ++ [f]) s)) as (_ & _ & _ & _ & _ & _ & _ & _ & _ & E0).
+      st_simpl. destruct (rep && _); unfold reader_dies; st_simpl_goal; congruence.
+  - unfold step_close. rewrite Hc. assumption.
+  - unfold step_conn_start. destruct (phase s); assumption.
+  - unfold step_conn_first. destruct (phase s); try assumption. cbv zeta.
+    destruct (max_buffered <? f_len f); [reflexivity|].
+    match goal with |- closed (if _ then _ else init_fail ?x) = true => remember x as s2 eqn:Hs2 end.
+    assert (E : closed s2 = true).
+    { subst s2. destruct (typed_handler cfg (f_typ f)) as [k|]; [|assumption].
+      destruct k; try assumption. unfold ack_enqueue. destruct (Nat.ltb _ _); assumption. }
+    destruct (_ && _); [st_simpl_goal; assumption|reflexivity].
+  - unfold step_conn_first_fail, init_fail. destruct (phase s); try assumption. reflexivity.
+  - unfold step_neg_submit. destruct (phase s) as [| |st o| | |]; try assumption.
+    destruct st, o; try assumption; destruct (is_fresh c s); assumption.
+  - unfold step_neg_step, neg_fail, neg_fail_with. destruct (phase s) as [| |st o| | |]; try assumption.
+    destruct o as [c0|]; [|assumption].
+    destruct (lookup c0 (callers s)) as [[r|r|r i|r res0]|]; try assumption.
+    destruct st, res0; try assumption; try reflexivity.
+    + destruct (gsv_outcome f) as [[cur mx]|]; [destruct (cur =? _)|]; try assumption; reflexivity.
+    + destruct (spv_ok f); try assumption; reflexivity.
+  - unfold step_conn_ready. destruct (phase s) as [| |st o| | |]; try assumption. destruct st; assumption.
+  - unfold step_conn_select. destruct (phase s); try assumption.
+    destruct pick_err; [destruct (errs s); [assumption|reflexivity]|rewrite Hc; assumption].
+  - unfold step_conn_return. destruct (phase s); try assumption. destruct (_ && _); assumption.
+  - unfold step_shutdown_close, step_close. destruct (lookup c (callers s)) as [[r|r|r i|r res0]|]; try assumption.
+    destruct res0; try assumption. destruct (_ && _); [|assumption]. st_simpl_goal. rewrite Hc. assumption.
+Qed.
+
+Definition over_phase (p : conn_phase) : bool := match p with PDraining _ | PReturned _ => true | _ => false end.
+
+Ltac oc_fin := st_simpl; repeat match goal with H : phase ?s = _ |- _ => rewrite H in * end; cbn [over_phase] in *; congruence.
+
+Lemma over_closed_step : forall cfg s e,
+  (over_phase (phase s) = true -> closed s = true) ->
+  over_phase (phase (step cfg s e)) = true -> closed (step cfg s e) = true.
+Proof.
+  intros cfg s e H Ho. destruct (over_phase (phase s)) eqn:E.
+  - apply step_closed_mono. auto.
+  - destruct (is_conn_event e) eqn:He.
+    + clear H. destruct e; try discriminate; cbn [step] in *.
+      * unfold step_conn_start in *. destruct (phase s) eqn:Hp; oc_fin.
+      * unfold step_conn_first in *. destruct (phase s) eqn:Hp; try oc_fin. cbv zeta in *.
+        destruct (max_buffered <? f_len f); [reflexivity|].
+        destruct (_ && _); [oc_fin|reflexivity].
+      * unfold step_conn_first_fail in *. destruct (phase s) eqn:Hp; try oc_fin. reflexivity.
+      * unfold step_neg_submit in *. destruct (phase s) as [| |st o| | |] eqn:Hp; try oc_fin.
+        destruct st, o; try oc_fin; destruct (is_fresh c s); oc_fin.
+      * unfold step_neg_step, neg_fail, neg_fail_with in *. destruct (phase s) as [| |st o| | |] eqn:Hp; try oc_fin.
+        destruct o as [c0|]; [|oc_fin].
+        destruct (lookup c0 (callers s)) as [[r|r|r i|r res0]|]; try oc_fin.
+        destruct st, res0; try oc_fin; try reflexivity.
+        -- destruct (gsv_outcome f) as [[cur mx]|]; [destruct (cur =? _)|]; try oc_fin; reflexivity.
+        -- destruct (spv_ok f); try oc_fin; reflexivity.
+      * unfold step_conn_ready in *. destruct (phase s) as [| |st o| | |] eqn:Hp; try oc_fin.
+        destruct st; oc_fin.
+      * unfold step_conn_select in *. destruct (phase s) eqn:Hp; try oc_fin.
+        destruct pick_err; [destruct (errs s); [oc_fin|reflexivity]|].
+        destruct (closed s) eqn:Ec; [st_simpl_goal; exact Ec|oc_fin].
+      * unfold step_conn_return in *. destruct (phase s) eqn:Hp; oc_fin.
+    + destruct (step_phase_ready cfg s e He) as (A & _). rewrite A, E in Ho. discriminate.
+Qed.
+
+Theorem over_closed_run : forall cfg evs, over_phase (phase (run cfg evs)) = true -> closed (run cfg evs) = true.
+Proof.
+  intros cfg evs. unfold run, run_from.
+  assert (G : forall evs s, (over_phase (phase s) = true -> closed s = true) ->
+              over_phase (phase (fold_left (step cfg) evs s)) = true -> closed (fold_left (step cfg) evs s) = true).
+  { clear evs. induction evs as [|e evs IH]; intros s H; cbn; [assumption|].
+    apply IH. apply over_closed_step. assumption. }
+  apply G. cbn. discriminate.
+Qed.
+
+(* the gate stays as it is once Connect has returned *)
+Lemma returned_ready_stable : forall cfg s e r, phase s = PReturned r -> ready (step cfg s e) = ready s.
+Proof.
+  intros cfg s e r Hp. destruct (is_conn_event e) eqn:He.
+  - destruct e; try discriminate; cbn [step];
+      unfold step_conn_start, step_conn_first, step_conn_first_fail, step_neg_submit, step_neg_step, step_conn_ready,
+             step_conn_select, step_conn_return; rewrite Hp; reflexivity.
+  - apply step_phase_ready. assumption.
 Qed.
